@@ -17,6 +17,7 @@ OptAll    == {Opt(p, o, w, b) : p \in 0..2, o \in BOOLEAN, w \in BOOLEAN, b \in 
 OptWeak3  == {Opt(1, FALSE, FALSE, FALSE), Opt(1, FALSE, TRUE, FALSE), Opt(2, FALSE, TRUE, TRUE)}
 OptErr    == {Opt(1, FALSE, FALSE, FALSE), Opt(1, TRUE, FALSE, TRUE)}
 AutoTwo   == {[prio |-> 1, weak |-> TRUE], [prio |-> 2, weak |-> FALSE]}
+OptPaths  == {Opt(1, FALSE, FALSE, FALSE), Opt(2, TRUE, FALSE, FALSE)}
 AutoNone  == {}
 AutoAll   == {[prio |-> p, weak |-> w] : p \in {1, 2}, w \in BOOLEAN}
 RVplain   == {"none", "halt"}
